@@ -11,6 +11,8 @@
 (*    under L' > L);                                                       *)
 (*  - for a FLAT program (K instructions none of which adds exec items)    *)
 (*    exactly min(L, K) steps were taken: exec holds K - min(L, K) items;  *)
+(*  - for a PRINTING program (K print.string instructions of B bytes each) *)
+(*    exactly B * min(L, K) bytes were printed, however many that is;      *)
 (*  - for a COUNTED program (dup_block nested d deep around               *)
 (*    [int.push 1, int.pop]: Steps(d) = 5 * 2^d - 3 steps in constant      *)
 (*    space) the run finishes - exec and int empty - iff the step limit is *)
@@ -43,6 +45,7 @@ Bound ==
   /\ (e.status = "ok" => e.err.kind = "none")
   /\ e.prefix_ok
   /\ (e.flat => (e.status = "ok" /\ e.sizes.exec = e.k - Min(e.limit, e.k)))
+  /\ (("bytes_each" \in DOMAIN e) => e.outbytes = e.bytes_each * Min(e.limit, e.k))
   /\ (("counted" \in DOMAIN e) =>
         /\ e.status = "ok"
         /\ (e.limit >= Steps(e.depth) <=> (e.sizes.exec = 0 /\ e.sizes.int = 0)))
